@@ -67,6 +67,7 @@ def model_hash(model, extra=()):
         for pn, p in list(m.named_parameters(recurse=False)) + list(m.named_buffers(recurse=False)):
             h.update(pn.encode())
             h.update(tensor_bytes(p))
+            h.update(b"g1" if p.requires_grad else b"g0")
     for e in extra:
         h.update(repr(e).encode())
     return h.hexdigest()[:20]
